@@ -29,18 +29,22 @@ func c08Queries() []c08Query {
 		{model.Not(ax), []string{"a", "b"}},
 		{model.Or(ax, model.Eq("b", "y")), []string{"a", "a"}},
 		{ax, []string{"u"}},
-		{model.Or(ax, model.Not(model.Eq("b", "y"))), []string{"b"}},
+		{model.Or(ax, model.Not(model.Eq("b", "y"))), nil},
 		{model.Not(model.Eq("a", "zz")), []string{"a", "c"}}, // c exists in index 0 only: the failing execution on index 1 must leave no trace
 		{model.Eq("c", "1"), []string{"b", "a", "b"}},
 		// values that exist in neither / only one of the two indexes, in first, middle and last operand position
 		{model.Or(model.Eq("a", "zz"), ax, model.Eq("a", "w")), nil},
-		{model.And(model.Not(model.Eq("a", "zz")), model.Or(model.Eq("b", "q"), model.Eq("b", "y"), model.Eq("b", "zz"))), []string{"a"}},
+		{model.And(model.Not(model.Eq("a", "zz")), model.Or(model.Eq("b", "q"), model.Eq("b", "y"), model.Eq("b", "zz"))), nil},
 		{model.Not(model.Or(model.Eq("a", "k"), model.Eq("a", "w"), ax)), nil},
 		// redundant nodes below the root (double NOT, single-operand AND/OR, nested same operator): a "simplifying"
 		// evaluation must not write back into the caller's tree
-		{model.And(ax, model.Not(model.Not(model.Eq("b", "y"))), model.Or(ax), model.And(model.And(ax))), []string{"b"}},
+		{model.And(ax, model.Not(model.Not(model.Eq("b", "y"))), model.Or(ax), model.And(model.And(ax))), nil},
 		// a nested operand before a plain comparison (an evaluation that reorders operands must not do it in the caller's slice)
 		{model.And(model.Not(ax), model.Or(model.Eq("b", "z"), model.Eq("b", "y")), model.Eq("b", "y")), nil},
+		// a column that index 1 does not have, as a later operand: the execution there fails half-way
+		{model.Or(model.And(ax, model.Eq("c", "1")), model.Eq("b", "y")), nil},
+		{model.Or(model.Eq("b", "y"), model.Eq("c", "2"), ax), nil},
+		{model.And(model.Not(ax), model.Not(model.Eq("b", "q")), model.Eq("c", "1")), nil},
 	}
 }
 
@@ -93,9 +97,10 @@ func newC08World(ctx *rt.Ctx) *c08World {
 		if err != nil {
 			rt.Harnessf("build: %v", err)
 		}
-		// index 0 is opened with an LRU cache, index 1 without: re-use must not depend on what a cache remembers
+		// index 1 is opened with an LRU cache, index 0 without (index 0 has every column, so a query that failed half-way
+		// on index 1 is evaluated in full there): re-use must not depend on what a cache remembers
 		var cache updog.Cache
-		if len(w.idx) == 0 {
+		if len(w.idx) == 1 {
 			cache = updog.NewLRUCache(1 << 20)
 		}
 		idx, err := ix.Open(p, false, cache)
@@ -319,9 +324,12 @@ func c08Edited(ctx *rt.Ctx, w *c08World) *rt.Violation {
 						safeExec(idx, q)
 						for step, v := range []string{v1, v2} {
 							l[leaf].Value = v
+							// the group-by list is a caller-visible field too: alternate between a list, none, and another list
+							q.GroupBy = [][]string{{"b"}, nil, {"a", "b"}}[(step+len(v1))%3]
+							fresh := append([]string{}, q.GroupBy...)
 							got, _ := safeExec(idx, q)
 							m := []*model.Expr{model.Eq("a", l[0].Value), model.Eq("b", l[1].Value)}
-							want, _ := safeExec(idx, &updog.Query{Expr: mk(m[0], m[1]).Updog(), GroupBy: []string{"b"}})
+							want, _ := safeExec(idx, &updog.Query{Expr: mk(m[0], m[1]).Updog(), GroupBy: fresh})
 							ctx.Cov.Add("edited_query_executions", 1)
 							ctx.Cov.Add("traces_validated_against_impl", 1)
 							if got != want {
